@@ -34,7 +34,7 @@ from core.loader import AnalysisError, FuncInfo as FuncInfoT, Repo, calls_in, no
 from core.report import Result
 
 from . import c02_builtins  # noqa: F401  (installs the full interpreter into Explorer)
-from .c02_sym import ANode, App, Cat, Explorer, Inst, Run, Sym, Term, Unsupported, cat, dataclass_eq, mentions, show
+from .c02_sym import ANode, App, Cat, Explorer, Inst, Run, Sym, Term, Unsupported, cat, dataclass_eq, mentions, show, subterms
 from .common import callees_of, reachable_funcs, stmt_of, types_of, where
 
 CONVERTER = "pytestarch.eval_structure_generation.file_import.converter"
@@ -392,8 +392,11 @@ def run_r2_r3_r4(repo: Repo, res: Result, gram: dict, col: Collector) -> tuple[l
         problems: dict[str, list[str]] = {"count": [], "importer": [], "raise": [], "plain": [], "indep": [], "consult": [], "from": [], "anchor": [], "level": []}
         undecided: list[str] = []
         sites: dict[str, str] = {}
+        sampled: tuple[str, str] | None = None
         for r in feasible:
             pc = fmt_path(r)
+            if r.outcome == "loop-body":
+                continue  # one iteration of a loop of unknown length explored on its own: not a result of the conversion
             if r.outcome != "return":
                 problems["raise"].append(f"the conversion raises {r.raised} when {pc}")
                 continue
@@ -427,6 +430,16 @@ def run_r2_r3_r4(repo: Repo, res: Result, gram: dict, col: Collector) -> tuple[l
                 else:
                     head, rest = split_anchor(importee)
                     verdict, fq = check_anchor(head, case)
+                    if verdict is not None and any(mentions(a, case.L) and a != L0 for a in r.path):
+                        verdict = "undecided"  # the path has pinned the level (an unrolled loop, a comparison): the term need not mention it
+                    if verdict == "undecided":
+                        # a spelling the term comparison does not know: decide it on concrete importers and levels instead
+                        if sampled is None:
+                            sampled = anchor_by_samples(repo, gram, cls)
+                        if sampled[0] == "ok":
+                            verdict = None
+                        elif sampled[0] == "bad":
+                            verdict = sampled[1]
                     if verdict == "undecided":
                         undecided.append(f"the package a relative import is resolved against is computed as {show(head)}, a shape the executor cannot compare with ancestors(importer)[-level]")
                         continue
@@ -502,6 +515,38 @@ def run_r2_r3_r4(repo: Repo, res: Result, gram: dict, col: Collector) -> tuple[l
     return usable, hierarchy_fq
 
 
+def anchor_by_samples(repo: Repo, gram: dict, cls: str) -> tuple[str, str]:
+    """Decides the anchor of relative imports on concrete importers and levels (every helper interpreted, nothing opaque): with
+    importer `pa.pb.pc.pd` and level k the importee must start with the importer minus its last k components.  ("ok" | "bad" |
+    "undecided", detail) - "bad" carries a concrete counterexample."""
+    col = Collector(repo, None)
+    for F, k in (("pa.pb.pc.pd", 1), ("pa.pb.pc.pd", 2), ("pa.pb.pc.pd", 3), ("qa.qb", 1)):
+        expected = ".".join(F.split(".")[:-k])
+        for P in (Sym("P", "str"), None):
+            if not any(f == "module" for f, _ in gram[cls]) and P is not None:
+                continue
+            tree = node(gram, "Module", body=[import_leaf(gram, cls, ["n1"], module=P, level=k)])
+            try:
+                runs = col.run(tree, Sym("prefix", "anystr"), Sym("internal", "set"), F)
+            except Unsupported as u:
+                return "undecided", u.msg
+            seen = 0
+            for r in runs:
+                if r.outcome != "return":
+                    continue
+                for _rec, _importer, importee in r.value:
+                    seen += 1
+                    lead = importee.parts[0] if isinstance(importee, Cat) else importee
+                    if not isinstance(lead, str):
+                        return "undecided", f"the importee {show(importee)} of a relative import in module {F} does not start with a constant package"
+                    if lead != expected + ".":
+                        form = f"from {'.' * k}{'P' if P is not None else ''} import n"
+                        return "bad", f"`{form}` in module `{F}` names {show(importee)}: resolved against `{lead.rstrip('.')}` instead of `{expected}` (the importer without its last {k} component(s))"
+            if not seen:
+                return "undecided", f"no record for a relative import of level {k} in module {F}"
+    return "ok", ""
+
+
 def check_anchor(head: Any, case: Case) -> tuple[str | None, str | None]:
     """None if `head` is ancestors(importer)[-level]; a violation text; or 'undecided'. Second value: fq of the ancestors function.
 
@@ -510,6 +555,8 @@ def check_anchor(head: Any, case: Case) -> tuple[str | None, str | None]:
       importer.rsplit(".", level)[0],  ".".join(importer.split(".")[:-level])
     """
     F, L = case.F, case.L
+    if any(isinstance(x, Sym) and "#" in x.name for x in subterms(head)) or any(isinstance(x, App) and x.fn in ("seq", "open", "elem", "after") for x in subterms(head)):
+        return "undecided", None  # computed by a loop of unknown length (the executor forgot what the loop did): decided on samples
     if isinstance(head, Term) and not mentions(head, L):
         return f"the package a relative import is resolved against ({show(head)}) does not depend on the statement's level", None
     if isinstance(head, Term) and not mentions(head, F):
